@@ -175,6 +175,14 @@ func (e *OpsEnv) Apply(op, a, b int, lib func(string, func())) *OpResult {
 	case IsMate(op):
 		gb := e.Pool[b]
 		res.FitB = e.Fit[b]
+		// two different parents may carry the same genome id (ids are per-species offspring counters; an interspecies
+		// mate can easily share the id of the organism it is mated with)
+		if a != b && e.T.Chance("mate.same_genome_id", 1, 5) {
+			oldId := gb.Id
+			gb.Id = ga.Id
+			defer func() { gb.Id = oldId }()
+			e.C.Count("probe.parents_same_genome_id")
+		}
 		res.BeforeB = Canon(gb)
 		lib(OpNames[op], func() {
 			switch op {
